@@ -1302,16 +1302,21 @@ static int processResponseQueue(KSI_AsyncClient *c,
 	if (errPdu != NULL) {
 		KSI_Utf8String *errorMsg = NULL;
 		KSI_Integer *status = NULL;
+		int err;
 
 		KSI_ErrorPdu_getErrorMessage(errPdu, &errorMsg);
 		KSI_ErrorPdu_getStatus(errPdu, &status);
 
+		/* An error PDU is a failure whatever its status says: a handle in the error state must carry an error code. */
+		err = convertStatusCode(status);
+		if (err == KSI_OK) err = KSI_SERVICE_UNKNOWN_ERROR;
+
 		KSI_LOG_error(c->ctx, "Async received error PDU: [%x:%llx] %s",
-				(unsigned)convertStatusCode(status), (unsigned long long)KSI_Integer_getUInt64(status), KSI_Utf8String_cstr(errorMsg));
+				(unsigned)err, (unsigned long long)KSI_Integer_getUInt64(status), KSI_Utf8String_cstr(errorMsg));
 
 		/* Set all handles that are still in response wait state into error state. */
 		asyncClient_setResponseError(c, KSI_ASYNC_STATE_WAITING_FOR_RESPONSE,
-				convertStatusCode(status), (long)KSI_Integer_getUInt64(status), errorMsg);
+				err, (long)KSI_Integer_getUInt64(status), errorMsg);
 	}
 
 	res = KSI_OK;
